@@ -11,7 +11,7 @@ import os
 from vlib import common, gen, pipeline, unc
 
 COMMENT_T = {"COMMENT", "COMMENT_MULTI", "COMMENT_CPP", "COMMENT_ENDIF", "COMMENT_CPP_ENDIF"}
-EXEMPT_T = COMMENT_T | {"IGNORED", "JUNK", "STRING_MULTI", "STRING", "CHAR", "PP_IGNORE", "PREPROC_BODY"}
+EXEMPT_T = COMMENT_T | {"IGNORED", "JUNK", "STRING_MULTI", "STRING", "CHAR", "PREPROC_BODY"}
 IARF = {"ignore": 0, "add": 1, "remove": 2, "force": 3}
 
 
@@ -93,6 +93,7 @@ def run(ctx):
                         "align_var_def_span": rng.choice([0, 0, 2]), "align_assign_span": rng.choice([0, 0, 2]),
                         "align_right_cmt_span": rng.choice([0, 3]), "indent_brace": rng.choice([0, 0, 2]),
                         "indent_single_newlines": "false",
+                        "disable_processing_nl_cont": rng.choice(["false", "false", "true"]),
                         "nl_end_of_file": rng.choice(["ignore", "add", "remove", "force"]), "nl_end_of_file_min": rng.choice([0, 1, 2, 3]),
                         "nl_start_of_file": rng.choice(["ignore", "ignore", "add", "remove", "force"]),
                         "nl_start_of_file_min": rng.choice([0, 1, 2])}
